@@ -395,6 +395,13 @@ fn pipe_oracle(k: usize, rows: usize, counts: &[u32], p: &Pseudo, bg: &Bg, base:
                 if o.s[x] != f32::NEG_INFINITY || o.s1[x] != f32::NEG_INFINITY {
                     return Err(format!("score[{}][{}] = {} / {} (two-step / one-step) but the background is zero", i, j, o.s[x], o.s1[x]));
                 }
+            } else if (fr / b[j]).abs() > f32::MAX as f64 {
+                // the exact quotient is not representable in f32 (a subnormal background frequency):
+                // the weight rounds to +inf and its logarithm is +inf on both routes; nothing finer
+                // can be asked of f32 arithmetic
+                if !(o.w[x] == f32::INFINITY && o.s[x] == f32::INFINITY && o.s1[x] == f32::INFINITY) {
+                    return Err(format!("weight[{}][{}] = {} (scores {} / {}) but freq/bg overflows f32: +inf expected", i, j, o.w[x], o.s[x], o.s1[x]));
+                }
             } else {
                 let wt = fr / b[j];
                 if !close(o.w[x] as f64, wt, 1e-5) {
@@ -425,7 +432,15 @@ fn pipe_oracle(k: usize, rows: usize, counts: &[u32], p: &Pseudo, bg: &Bg, base:
                     if r[x] != 0.0 {
                         return Err(format!("rescaled weight[{}][{}] = {} but the new background is zero", i, j, r[x]));
                     }
-                } else if b[j] != 0.0 && !close(r[x] as f64, fr / b2[j], 1e-5) {
+                } else if b[j] != 0.0
+                    && (fr / b[j]).abs() <= f32::MAX as f64
+                    && (fr / b2[j]).abs() <= f32::MAX as f64
+                    // rescale multiplies by old/new: when that ratio itself overflows f32 (subnormal new
+                    // frequency) the result is inf or 0*inf = NaN; rescaling is not a clause of C09 and the
+                    // point is reported in the stats only
+                    && (b[j] / b2[j]).abs() <= f32::MAX as f64
+                    && !close(r[x] as f64, fr / b2[j], 1e-5)
+                {
                     return Err(format!("rescaled weight[{}][{}] = {} but freq/new bg = {}", i, j, r[x], fr / b2[j]));
                 }
             }
@@ -789,6 +804,20 @@ pub fn dyadic_bg(rng: &mut Rng, k: usize, zeros: bool, wildcard_mass: bool) -> V
     let mut v = vec![0.0f32; k];
     for (i, j) in live.iter().enumerate() {
         v[*j] = n[i] as f32 / 1024.0;
+    }
+    // the "null frequency" test must be `== 0.0`, nothing else: sometimes a dead entry is -0.0 (still
+    // null) or a SUBNORMAL, non-zero frequency (valid: in [0,1], and too small to move the f32 sum
+    // away from 1.0), which must be treated like any other non-zero frequency
+    if rng.chance(1, 4) {
+        let dead: Vec<usize> = (0..k).filter(|j| v[*j] == 0.0).collect();
+        if !dead.is_empty() {
+            let j = *rng.pick(&dead);
+            v[j] = match rng.below(3) {
+                0 => -0.0,
+                1 => f32::from_bits(rng.range(1, 0x007f_ffff) as u32),
+                _ => f32::from_bits(1),
+            };
+        }
     }
     v
 }
